@@ -68,7 +68,22 @@ func genPgHistory(t *tape.Tape) []pgOp {
 	for u := 0; u < units; u++ {
 		t.Begin("unit")
 		h := t.Int(nh)
-		switch t.Weighted(4, 3, 4, 1, 1, 1) {
+		switch t.Weighted(4, 3, 4, 1, 1, 1, 1) {
+		case 6:
+			// a listing in the middle of an explicit transaction on a handle with a language (and a translated type) selected
+			ops = append(ops, pgOp{H: h, Kind: "prefix", Arg: "template"}, pgOp{H: h, Kind: "lang", Arg: "nor"}, pgOp{H: h, Kind: "start"})
+			if t.Chance(1, 2) {
+				valN++
+				ops = append(ops, pgOp{H: h, Kind: "put", Key: keys[t.Int(2)], Val: fmt.Sprintf("v%d", valN)})
+			}
+			ops = append(ops, pgOp{H: h, Kind: "dump", Key: []string{"k", "k1", "a"}[t.Int(3)]})
+			valN++
+			ops = append(ops, pgOp{H: h, Kind: "put", Key: keys[t.Int(2)], Val: fmt.Sprintf("v%d", valN)})
+			if t.Chance(3, 4) {
+				ops = append(ops, pgOp{H: h, Kind: "stop"})
+			} else {
+				ops = append(ops, pgOp{H: h, Kind: "abort"})
+			}
 		case 5:
 			// a listing: Dump, walk to the end, Close
 			ops = append(ops, pgOp{H: h, Kind: "dump", Key: []string{"k", "k1", "a"}[t.Int(3)]})
